@@ -197,7 +197,7 @@ func runC14(r *Result, d *drv.Driver, tier string, seed int64, replay string) {
 		n = 12000
 	}
 	r.Rule = "for every operation with a response dispatch entry (15): replies built as valid responses with every combination of batch count {0,1,2}, item count {0,1,2}, operation match/mismatch, status {Success, Operation Failed, Pending, Undone}, reason, message, payload present/absent/mistyped, " +
-		"their byte-level and tree-level mutations and truncations at random offsets, served raw over real TLS to the real Client.Send / Client.DiscoverVersions; result (payload / failure with reason and message / error) compared with the model; a panic or a payload returned for a non-matching reply is a violation; plus the not-connected case and an end-to-end run against the package's own Server. distinct = distinct (operation, reply bytes); non-trivial = reply longer than a header"
+		"their byte-level and tree-level mutations and truncations at random offsets, replies carrying a vendor extension of every kind (text, bytes, long integer, structure, empty structure) whole and cut at offsets inside and around the extension, served raw over real TLS to the real Client.Send / Client.DiscoverVersions; result (payload / failure with reason and message / error) compared with the model; a panic or a payload returned for a non-matching reply is a violation; plus the not-connected case and an end-to-end run against the package's own Server. distinct = distinct (operation, reply bytes); non-trivial = reply longer than a header"
 	ca := tlsm.NewCA("c14-ca")
 	srv, err := newRawServer(tlsm.Leaf(ca, tlsm.LeafOpts{Host: "127.0.0.1"}))
 	if err != nil {
@@ -251,6 +251,45 @@ func runC14(r *Result, d *drv.Driver, tier string, seed int64, replay string) {
 		if b := encodeResponse(resp); b != nil {
 			for _, c := range cutTails(b) {
 				cases = append(cases, tc{op: op, reply: c, kind: "cut-tail", dv: op == kmip.OPERATION_DISCOVER_VERSIONS})
+			}
+		}
+	}
+	// replies carrying a vendor extension (Message Extension / Vendor Extension: an item of any type and length the Client has
+	// to step over): whole, they are ordinary replies; cut anywhere inside or around the extension they are no reply at all
+	for i, op := range []kmip.Enum{kmip.OPERATION_ACTIVATE, kmip.OPERATION_GET} {
+		resp := kmip.Response{Header: kmip.ResponseHeader{Version: kmip.ProtocolVersion{Major: 1, Minor: 4}, TimeStamp: time.Unix(1, 0), BatchCount: 1},
+			BatchItems: []kmip.ResponseBatchItem{{Operation: op, UniqueID: []byte{9}, ResultStatus: kmip.RESULT_STATUS_SUCCESS,
+				MessageExtension: kmip.MessageExtension{VendorIdentification: "acme", CriticalityIndicator: i == 1}}}}
+		if i == 0 {
+			resp.BatchItems[0].ResponsePayload = kmip.ActivateResponse{UniqueIdentifier: "x"}
+		} else {
+			resp.BatchItems[0].ResponsePayload = kmip.GetResponse{ObjectType: kmip.OBJECT_TYPE_SYMMETRIC_KEY, UniqueIdentifier: "k"}
+		}
+		b := encodeResponse(resp)
+		if b == nil {
+			continue
+		}
+		exts := [][]byte{
+			append([]byte{0x42, 0x00, 0x7d, 0x07, 0, 0, 0, 40}, bytes.Repeat([]byte{'v'}, 40)...),                // text, 40 bytes
+			append([]byte{0x42, 0x00, 0x7d, 0x08, 0, 0, 0, 13}, append(bytes.Repeat([]byte{7}, 13), 0, 0, 0)...), // bytes, 13 + padding
+			{0x42, 0x00, 0x7d, 0x03, 0, 0, 0, 8, 1, 2, 3, 4, 5, 6, 7, 8},                                         // long integer
+			{0x42, 0x00, 0x7d, 0x01, 0, 0, 0, 16, 0x54, 0x00, 0x01, 0x02, 0, 0, 0, 4, 0, 0, 0, 5, 0, 0, 0, 0},    // structure with one item
+			{0x42, 0x00, 0x7d, 0x01, 0, 0, 0, 0},                                                                 // empty structure
+		}
+		for _, n := range mut.All(mut.Parse(b)) {
+			if n.Tag != 0x420051 {
+				continue
+			}
+			for _, item := range exts {
+				m := append(append(append([]byte(nil), b[:n.End]...), item...), b[n.End:]...)
+				for p := n; p != nil; p = p.Parent {
+					l := binary.BigEndian.Uint32(m[p.Off+4:])
+					binary.BigEndian.PutUint32(m[p.Off+4:], l+uint32(len(item)))
+				}
+				cases = append(cases, tc{op: op, reply: m, kind: "vendor-ext"})
+				for cut := n.Off; cut < len(m); cut += 1 + (cut-n.Off)%3 {
+					cases = append(cases, tc{op: op, reply: m[:cut], kind: "vendor-ext+cut"})
+				}
 			}
 		}
 	}
@@ -427,6 +466,12 @@ func endToEnd(r *Result, ca *tlsm.CA) {
 // notASuccessReply inspects reply bytes with the generic TTLV parser and says why they are not a successful single-item
 // reply to operation op ("" if they are, or if the generic view is not clear enough to judge)
 func notASuccessReply(b []byte, op uint32) string {
+	if len(b) < 8 {
+		return fmt.Sprintf("is cut short: %d bytes, less than an item header", len(b))
+	}
+	if want := 8 + int(binary.BigEndian.Uint32(b[4:8])); want > len(b) {
+		return fmt.Sprintf("is cut short: the message announces %d bytes, %d arrived before the connection ended", want, len(b))
+	}
 	top := mut.Parse(b)
 	if len(top) < 1 || top[0].Tag != 0x42007b || top[0].Typ != 1 {
 		return ""
